@@ -73,11 +73,12 @@ def _given(*arrays):
 
 
 def _scribble(arrays):
-    """... and what happens to the first of them afterwards: a clamp is created with a vertex' position array, which
-    optimisation then moves in place; the clamp's manifold is defined by the position it was created at"""
-    a = arrays[0]
-    for k in range(len(a)):
-        a[k] = a[k] + 7
+    """... and what happens to them afterwards: a clamp is created with a vertex' position array, which optimisation
+    then moves in place, and with arrays (line points, centre, normal) the caller goes on using; the clamp's
+    manifold is defined by the values it was created with (round 5: every array, not only the position)"""
+    for i, a in enumerate(arrays):
+        for k in range(len(a)):
+            a[k] = a[k] + 7 + 3 * i * (k + 1)
 
 
 @proof("C17", "LineClamp", functions=[CL + "curve:LineClamp.__init__", CL + "clamp:ClampBase.__init__", CL + "clamp:ClampBase.get_params",
@@ -271,6 +272,12 @@ def translation_link(ctx):
     link.update()
     ctx.prove("follower-is-leader-plus-original-offset", ctx.eq(link.follower, l1 + (f0 - l0)))
     ctx.prove("leader-not-altered", link.leader is lead and unchanged(ctx, snap))
+    # a link declared with whole-number coordinates (lists of ints), leader moved to any real position
+    link = L.TranslationLink([0, 0, 0], [1, -2, 3])
+    link.leader = np.array(l1)
+    _, exc = ctx.call(link.update)
+    ctx.prove("declared-with-integers/follower-is-leader-plus-original-offset",
+              exc is None and ctx.eq(np.asarray(link.follower, dtype=object if ctx.symbolic else float), l1 + np.array([1, -2, 3])))
 
 
 @proof("C17", "SymmetryLink", functions=[LK + "SymmetryLink.__init__", LK + "SymmetryLink.transform", LK + "LinkBase.update",
